@@ -4,7 +4,9 @@ package c12
 
 import (
 	"context"
+	"encoding/json"
 	"fmt"
+	"time"
 
 	ebu "github.com/jilio/ebu"
 
@@ -92,5 +94,93 @@ func reattachedID(run *vk.Run) {
 		if bad {
 			run.Violation("resume:other-id-starved-by-a-reattached-id", fmt.Sprintf("ids billing%s and audit follow one event type; %q is attached a second time after events 1 and 2 (returned %v), then events 3 and 4 are published: %q received %v, metrics %v (want [1 2 3 4] each)", map[bool]string{true: ", metrics", false: ""}[third], again, err, other, got[other], got["metrics"]), map[string]any{"delivered": got})
 		}
+	}
+}
+
+type markKey struct{}
+
+// parkAfterAppend is an Observability implementation that parks the publish carrying a marked
+// context right after its record has been appended.
+type parkAfterAppend struct {
+	appended, goOn chan struct{}
+}
+
+func (o *parkAfterAppend) OnPublishStart(ctx context.Context, _ string, _ any) context.Context {
+	return ctx
+}
+func (o *parkAfterAppend) OnPublishComplete(context.Context, string) {}
+func (o *parkAfterAppend) OnHandlerStart(ctx context.Context, _ string, _ bool) context.Context {
+	return ctx
+}
+func (o *parkAfterAppend) OnHandlerComplete(context.Context, time.Duration, error) {}
+func (o *parkAfterAppend) OnPersistStart(ctx context.Context, _ string, _ int64) context.Context {
+	return ctx
+}
+func (o *parkAfterAppend) OnPersistComplete(ctx context.Context, _ time.Duration, _ error) {
+	if ctx.Value(markKey{}) != nil {
+		close(o.appended)
+		<-o.goOn
+	}
+}
+
+// overlapOnFileStore: a SQLite file with default options holding a backlog of 1100 events; while
+// the subscription is replaying it, another goroutine publishes one more event whose record is
+// appended during the replay and whose delivery starts after the subscription has gone live. That
+// event reaches the subscription exactly once - like every event of the backlog.
+func overlapOnFileStore(run *vk.Run, scratch string) {
+	ctx := context.Background()
+	st, err := stores.Open("sqlite-file", scratch)
+	if err != nil {
+		panic(err)
+	}
+	defer func() { st.Close(); st.Remove() }()
+	const backlog = 1100
+	for k := 1; k <= backlog; k++ {
+		d, _ := json.Marshal(tA{ID: k})
+		if _, err := st.Store.Append(ctx, &ebu.Event{Type: ebu.EventType(tA{}), Data: d, Timestamp: time.Unix(int64(k), 0)}); err != nil {
+			panic(err)
+		}
+	}
+	obs := &parkAfterAppend{appended: make(chan struct{}), goOn: make(chan struct{})}
+	bus := ebu.New(ebu.WithStore(st.Store), ebu.WithObservability(obs))
+	count := map[int]int{}
+	order := 0
+	outOfOrder := false
+	pubDone := make(chan struct{})
+	started := false
+	err = ebu.SubscribeWithReplay(ctx, bus, "file-overlap", func(e tA) {
+		count[e.ID]++
+		if e.ID <= backlog {
+			if e.ID != order+1 {
+				outOfOrder = true
+			}
+			order = e.ID
+		}
+		if e.ID == 10 && !started {
+			started = true
+			go func() {
+				defer close(pubDone)
+				ebu.PublishContext(bus, context.WithValue(ctx, markKey{}, true), tA{ID: 5000})
+			}()
+			<-obs.appended // the other publisher's record is in the file now
+		}
+	})
+	close(obs.goOn)
+	if started {
+		<-pubDone
+	}
+	bus.Wait()
+	missing, dup := 0, 0
+	for k := 1; k <= backlog; k++ {
+		switch c := count[k]; {
+		case c == 0:
+			missing++
+		case c > 1:
+			dup++
+		}
+	}
+	run.Case("publish overlapping the replay of a long backlog on a SQLite file", true)
+	if err != nil || missing != 0 || dup != 0 || outOfOrder || count[5000] != 1 {
+		run.Violation("resume:overlapping-publish-on-file-store", fmt.Sprintf("SQLite file (default options) with a backlog of %d events; an event published by another goroutine was appended while the subscription replayed and dispatched after it had gone live: SubscribeWithReplay returned %v, %d backlog events missing, %d delivered more than once, out of order: %v, the overlapping event was delivered %d times (want 1)", backlog, err, missing, dup, outOfOrder, count[5000]), nil)
 	}
 }
